@@ -191,6 +191,10 @@ pub struct ConsLog {
     pub drop_span: Mutex<Option<(u64, u64)>>,
     /// the consumer's task fails once it is done with the stream: the stream is dropped while its thread unwinds from a panic (caught by the consumer itself)
     pub drop_while_unwinding: AtomicBool,
+    /// driven consumer with replaced wakers: only the waker of the most recent poll wakes it, and now and then it polls again (with a new waker) although nobody woke it
+    pub only_latest_waker: AtomicBool,
+    pub stale_wakes: AtomicU32,
+    pub spurious_polls: AtomicU32,
     /// FREE lane: (after the k-th yield, milliseconds) -- the polling consumer stays away that long (a consumer that is busy elsewhere:
     /// the buffer fills up and the producers meet back-pressure for a while)
     pub stalls:  Mutex<Vec<(u32, u32)>>,
@@ -216,10 +220,14 @@ pub fn driven_consumer_body(mut strm: Box<dyn Strm>, fresh_wakers: bool, hold: H
         let flag = WakeFlag::new();
         let mut stable = flag.fresh_waker();
         let mut npoll = 0u32;
+        let strict = fresh_wakers && log.only_latest_waker.load(SeqCst);
+        if strict { flag.only_the_latest_waker_counts() }
+        let mut spurious = false;
         loop {
             // "waker replaced between polls": a new waker object on a few of the polls (every poll would self-wake forever)
             npoll += 1;
-            if fresh_wakers && (npoll == 2 || npoll == 3 || npoll == 5 || npoll == 8) { stable = flag.fresh_waker() }
+            if fresh_wakers && (npoll == 2 || npoll == 3 || npoll == 5 || npoll == 8 || spurious) { stable = flag.fresh_waker() }
+            spurious = false;
             let w = stable.clone();
             let t0 = stamp();
             log.polls.fetch_add(1, SeqCst);
@@ -232,12 +240,15 @@ pub fn driven_consumer_body(mut strm: Box<dyn Strm>, fresh_wakers: bool, hold: H
                 Poll::Ready(None) => { log.ended.store(true, SeqCst); break }
                 Poll::Pending => {
                     log.empties.lock().unwrap().push((t0, stamp()));
+                    // (strict mode) a poll nobody asked for, with a new waker: the stream moved to another task, say -- from then on only that waker counts
+                    if strict && npoll % 3 == 1 && !flag.is_set() { spurious = true; log.spurious_polls.fetch_add(1, SeqCst); sched::point(); continue }
                     log.parks.fetch_add(1, SeqCst);
                     if !sched::park(&flag) { log.gave_up.store(true, SeqCst); break }
                 }
             }
         }
         log.wakes.store(flag.wakes(), SeqCst);
+        log.stale_wakes.store(flag.stale_wakes(), SeqCst);
         // the stream is dropped here (by the thread that polled it)
         let t0 = stamp();
         drop_stream(strm, log.drop_while_unwinding.load(SeqCst));
